@@ -1,4 +1,4 @@
-import os
+import os, shutil, collections
 import vlib
 from vlib import Inconclusive
 from . import register
@@ -57,6 +57,36 @@ def c08(ctx):
     cov = run(ctx, ["C08."], 16, 300, 0, 0, "I/O order (write-ahead discipline)")
     # the same storage-boundary rules under goroutine concurrency: 8 clients through the request manager on small
     # pools (evictions), page writes and log writes totally ordered by the recording wrapper's mutex
+    # long single-goroutine workloads without crash probes: heaps several times the pool size, so that dirty heap
+    # pages are evicted all the time (the probed workloads above are short and hardly evict)
+    longs = collections.Counter()
+    nlong, steps = (12, 1200) if ctx.tier == "thorough" else (6, 300)
+    lt = os.path.join(ctx.work, "io-long.ndjson")
+    with open(lt, "w") as out:
+        for i in range(nlong):
+            wdir = os.path.join(ctx.work, "long%d" % i)
+            os.makedirs(wdir, exist_ok=True)
+            tr = os.path.join(ctx.work, "long-%d.ndjson" % i)
+            vlib.vdrive(ctx, ["crash", "run", wdir, tr, os.path.join(ctx.work, "long.ops"), [64, 64, 96, 128][i % 4]], timeout=600,
+                        env={"VERIF_SEED": str(ctx.seed * 77 + i), "VERIF_CRASH_STEPS": str(steps)})
+            inck = False
+            for e in vlib.read_ndjson(tr):
+                if e["ev"] in ("CkptStart", "CkptRet"):
+                    inck = e["ev"] == "CkptStart"
+                if e["ev"] == "WPage" and e.get("heap"):
+                    longs["heap_page_writes"] += 1
+                    longs["heap_page_writes_by_eviction"] += 0 if inck else 1
+                    longs["heap_page_writes_with_next_link"] += 1 if e.get("next", -1) >= 0 else 0
+                longs[e["ev"]] += 1
+            out.write(open(tr).read())
+            os.remove(tr)
+            os.remove(os.path.join(ctx.work, "long.ops"))
+            shutil.rmtree(wdir, ignore_errors=True)
+    res = vlib.validate(ctx, crash.FAM, "CrashModelTrace", "Trace.cfg", lt, name="val-io-long", timeout=3000)
+    judge(ctx, res, lt, "I/O order in long eviction-heavy workloads", prefixes=["C08."])
+    if longs["heap_page_writes_by_eviction"] < 50 or longs["heap_page_writes_with_next_link"] < 20:
+        raise Inconclusive("vacuous: long workloads produced %s" % dict(longs))
+    cov["long_workloads"] = dict(longs)
     conc = {}
     for procs in (4, 16):
         io = os.path.join(ctx.work, "io-p%d.ndjson" % procs)
@@ -69,8 +99,20 @@ def c08(ctx):
         conc["gomaxprocs_%d" % procs] = dict(c)
         if c["WLog"] == 0 or c["WPage"] == 0:
             raise Inconclusive("vacuous: concurrent run produced %s" % dict(c))
+    # eviction-heavy concurrent windows with a slow log device (page writes issued while log writes are in flight)
+    for procs in (4, 16):
+        io = os.path.join(ctx.work, "ioheavy-p%d.ndjson" % procs)
+        vlib.vdrive(ctx, ["rm", "io", io, 12 if ctx.tier == "thorough" else 4, procs], timeout=1800, ok_codes=(0, 3),
+                    env={"VERIF_SEED": str(ctx.seed * 37 + procs)})
+        res = vlib.validate(ctx, crash.FAM, "CrashModelTrace", "Trace.cfg", io, name="val-ioheavy-p%d" % procs, timeout=1800)
+        judge(ctx, res, io, "I/O order under concurrency, eviction-heavy, slow log (GOMAXPROCS=%d)" % procs, prefixes=["C08."])
+        c = crash.count_events(io)
+        hw = sum(1 for e in vlib.read_ndjson(io) if e["ev"] == "WPage" and e.get("heap"))
+        conc["eviction_heavy_gomaxprocs_%d" % procs] = dict(c, heap_page_writes=hw)
+        if hw < 50 or c["CommitDone"] < 100:
+            raise Inconclusive("vacuous: eviction-heavy concurrent run produced %s, %d heap page writes" % (dict(c), hw))
     cov["concurrent_io_events"] = conc
-    vlib.write_evidence(ctx, "model_checking", cov, ASSUME + ["concurrent runs check the page-LSN and log well-formedness rules; commit-return ordering is checked in the single-goroutine workloads only"])
+    vlib.write_evidence(ctx, "model_checking", cov, ASSUME + ["concurrent runs: the recording wrapper does not serialise the device (a log write is recorded on completion, a page write on issue; two windows of three run with a slow log device), commit return is marked by hook VerifTxnEnd inside Commit after its log force"])
 
 
 @register("C20")
